@@ -48,7 +48,7 @@ LEVEL_NOTE = ("Trusts the seam's crash model (operation atomicity of the local "
               "transport, arbitrary prefix for the non-atomic put) and that an "
               "error reported by the transport means no effect; errors reported "
               "after a performed operation are not modelled.")
-REGISTERED = False
+REGISTERED = True
 NONTRIVIAL_FLOOR = {"quick": 500, "thorough": 3000}
 
 PRES = ("free", "live", "dead", "empty", "corrupt", "missing")
